@@ -323,6 +323,36 @@ fn c29_eval(case: &MapCase, _env: &Env) -> Outcome {
     macro_rules! poison_fail {
         ($($arg:tt)*) => {{ POISONED.store(true, std::sync::atomic::Ordering::SeqCst); return Outcome::Fail { msg: format!($($arg)*) }; }};
     }
+    // in-process watchdog: a Map32 call that does not return (e.g. free_all_chunks walking a damaged
+    // region list forever) is reported as a failure of the history that was running
+    static HEART: std::sync::atomic::AtomicU64 = std::sync::atomic::AtomicU64::new(0);
+    static CURRENT: std::sync::Mutex<String> = std::sync::Mutex::new(String::new());
+    static WATCHDOG: std::sync::Once = std::sync::Once::new();
+    *CURRENT.lock().unwrap() = serde_json::to_string(case).unwrap();
+    HEART.fetch_add(1, std::sync::atomic::Ordering::SeqCst);
+    WATCHDOG.call_once(|| {
+        std::thread::spawn(|| {
+            let mut last = HEART.load(std::sync::atomic::Ordering::SeqCst);
+            let mut since = std::time::Instant::now();
+            loop {
+                std::thread::sleep(std::time::Duration::from_millis(500));
+                let now = HEART.load(std::sync::atomic::Ordering::SeqCst);
+                let in_case = DIRTY.load(std::sync::atomic::Ordering::SeqCst) && !POISONED.load(std::sync::atomic::Ordering::SeqCst);
+                if now != last || !in_case {
+                    last = now;
+                    since = std::time::Instant::now();
+                    continue;
+                }
+                if since.elapsed().as_secs() >= 20 {
+                    let case: serde_json::Value = serde_json::from_str(&CURRENT.lock().unwrap()).unwrap_or(serde_json::Value::Null);
+                    let out = serde_json::json!({"evaluations": 1, "nontrivial": [], "labels": {}, "samples": [], "known_hits": {}, "inconclusive": [],
+                        "failure": {"case": case, "reason": "a Map32 operation of this history has not returned for 20 s (region list damaged: free_all_chunks / the region chain loops forever)"}});
+                    println!("SHARD {}", out);
+                    std::process::exit(0);
+                }
+            }
+        });
+    });
     init_sft_map();
     let map: &'static Map32 = MAP.get_or_init(|| {
         let m: &'static Map32 = Box::leak(Box::new(Map32::new()));
@@ -402,6 +432,7 @@ fn c29_eval(case: &MapCase, _env: &Env) -> Outcome {
         poison_fail!("{}", e);
     }
     for (i, op) in case.ops.iter().enumerate() {
+        HEART.fetch_add(1, std::sync::atomic::Ordering::SeqCst);
         match op {
             MapOp::Alloc { s, n } => {
                 let s = *s as usize % 3;
